@@ -80,6 +80,20 @@ func (q *query) constructLookupResult() *lookupWithFollowupResult
   loop over peers invariant res != nil && len(res.state) == len(peers) && res.peers == peers && res.closest == closest && res.completed == completed
   loop over peers invariant all(j, 0, $key, res.state[j] == qpeerset.stateOf(q.queryPeers, peers[j]))
 
+# ---- lookup events (C01: published events agree with what happened) -----------
+# An event handed to an open subscription is delivered unless one of the two
+# contexts ends: publishing never drops an event because the subscriber lags.
+func (e *lookupEventChannel) send(ctx context.Context, ev *LookupEvent)
+  props C01
+  modifies *
+  ensures [delivered-or-cancelled] imp(e.ch != nil, tagged("sent:e.ch") || tagged("recv:e.ctx.Done()") || tagged("recv:ctx.Done()"))
+  ghost at send(e.ch): assert($msg == ev)
+
+func PublishLookupEvent(ctx context.Context, ev *LookupEvent)
+  props C01
+  modifies *
+  ghost at before call(send): assert($arg1 == ev)
+
 # ---- the lookup event loop (C03, C01, C02) ------------------------------------
 # $out: the peers with a spawned worker whose update has not been consumed yet
 # (one token per spawn). TOK: every token holder is a member in state Waiting.
@@ -166,6 +180,10 @@ func (dht *IpfsDHT) runQuery(ctx context.Context, target string, queryFn queryFn
   ensures imp(result2 == nil, lookupResultOK(result0, result1, dht.bucketSize))
   ghost at before call(run): assert(ctxRoot(q.ctx) == old(ctxRoot(ctx)))
   ghost at assign(q): q.$out = mapcomp(x, peer.ID, false)
+  # the per-response IP diversity limit of a lookup is the routing-table filter's TABLE-WIDE limit (a response may
+  # legitimately name up to that many peers of one IP group; the per-CPL limit would discard filter-passing peers)
+  ghost at assign(maxPeersPerIPGroup): assert(maxPeersPerIPGroup == filter.maxForTable)
+  ghost at before call(run): assert(q.maxPeersPerIPGroup == maxPeersPerIPGroup)
 
 role stopFn(qp *qpeerset.QueryPeerset) bool in (dht *IpfsDHT) runLookupWithFollowup(ctx context.Context, target string, queryFn queryFn, stopFn stopFn) (*lookupWithFollowupResult, error)
   pure
@@ -183,6 +201,13 @@ func (dht *IpfsDHT) runLookupWithFollowup(ctx context.Context, target string, qu
   ghostvar $cap int = -1
   modifies *
   ensures [internal-followups-awaited-exactly] imp($spawned == 0, $recv == 0) && imp($spawned > 0, $recv == $spawned && $cap == $spawned)
+  # C02: every returned peer that has not been queried yet - heard of OR still
+  # waiting (its dial may have been cancelled by the termination) - is queried in
+  # the follow-up ($pos: its position in the follow-up list)
+  ghostvar $pos map[int]int = any
+  loop 0 invariant [followup-covers-heard-and-waiting] all(j, 0, $key, imp(lookupRes.state[j] == qpeerset.PeerHeard || lookupRes.state[j] == qpeerset.PeerWaiting, 0 <= $pos[j] && $pos[j] < len(queryPeers) && queryPeers[$pos[j]] == lookupRes.peers[j])) && lookupRes != nil
+  ghost at append(queryPeers): $pos[$key] = len(queryPeers) - 1
+  ghost at assign(doneCh): assert(all(j, 0, len(lookupRes.peers), imp(lookupRes.state[j] == qpeerset.PeerHeard || lookupRes.state[j] == qpeerset.PeerWaiting, 0 <= $pos[j] && $pos[j] < len(queryPeers) && queryPeers[$pos[j]] == lookupRes.peers[j])))
   loop 1 invariant $spawned == $key && $recv == 0 && $cap == len(queryPeers) && len(queryPeers) > 0
   loop 2 invariant $spawned == len(queryPeers) && $recv == $key && followupsCompleted == $key && $cap == $spawned && lookupRes != nil && len(queryPeers) > 0
   loop 3 invariant $spawned == len(queryPeers) && $recv == i && i <= len(queryPeers) && $cap == $spawned && lookupRes != nil && !lookupRes.completed
